@@ -27,6 +27,8 @@ def run(chk):
              "outside -> true and a side the point lies beyond; all 25 weak orderings")
     chk.rule("T.side-algebra", "GetAdjacentLocation, HeadingClockwise, AreOpposites and the step / verdict of StartLocsAreClockwise equal the arithmetic of "
              "the clockwise cycle Left->Top->Right->Bottom on the whole four-element domain (61 cells)")
+    chk.rule("T.next-location", "GetNextLocation: leaving the region of a side, the next vertex is filed under the opposite side first, else an adjacent "
+             "side, else Inside (four cases x all positions against the rectangle)")
     chk.rule("SCAN.start", "the segment scan of RectClip64::ExecuteInternal starts at index 0 (the closing segment) on every path")
     chk.rule("LOOP", "nothing written while clipping one path is read while clipping the next ('path by path')")
     chk.rule("CLEAN", "RectClip64's scratch containers are empty again at every normal exit of Execute")
@@ -36,6 +38,7 @@ def run(chk):
         e3.location_table(db, chk, cfg)
         e3.bounds_update_table(db, chk, cfg)
         e3.side_algebra_tables(db, chk, cfg)
+        e3.next_location_table(db, chk, cfg)
         e3.scan_start_rule(db, chk, cfg, "RectClip64::ExecuteInternal", 0)
         eng = e2.E2(db, chk, cfg, ["RectClip64", "RectClipLines64"])
         e2.check_classification(eng, RECT, chk, "RectClip64")
